@@ -1,6 +1,6 @@
 (* Props/C06.v — C06: replies reach exactly their requester; other messages are delivered once, in order.
    Theorems only.  Model: Model/Alloc.v with the allocator program regenerated into Gen/Alloc.v. *)
-From SG Require Import Base.Prelude Model.AllocLang Model.Alloc Gen.Alloc Proofs.AllocProofs.
+From SG Require Import Base.Prelude Model.AllocLang Model.Alloc Gen.Alloc Proofs.AllocProofs Gen.Dispatcher Model.DispatchLoop Proofs.DispatchLoopProofs.
 Open Scope Z_scope.
 
 (* the regenerated allocator: the expected micro-operations, inside the lock *)
@@ -40,3 +40,22 @@ Example C06_example :
   let '(w1, app) := route w [(5, 50); (9, 90); (7, 70); (5, 51); (9, 91); (3, 30)] in
   (answer_of w1 7, answer_of w1 8, answer_of w1 9, app) = (Some 70, None, Some 90, [(5, 50); (5, 51); (3, 30)]).
 Proof. reflexivity. Qed.
+
+(* "handed to the application exactly once": the hand-over between the thread that queues received blocks and the dispatcher thread.
+   With the loop as the source writes it (Gen/Dispatcher.v, regenerated: the trigger is cleared BEFORE the queue is drained), under
+   EVERY interleaving of queueing (put, then set the trigger - two steps) and dispatcher steps, no block is ever left in the queue
+   with the dispatcher asleep and nobody about to wake it ... *)
+Theorem C06_dispatcher_no_lost_wakeup : forall tr, stuck (drun dispatcher_clears_before_drain d0 tr) = false.
+Proof. exact no_lost_wakeup. Qed.
+Print Assumptions C06_dispatcher_no_lost_wakeup.
+(* ... every queued block is delivered or still queued (none lost, none twice), whatever the schedule ... *)
+Theorem C06_dispatcher_conserves_blocks : forall tr,
+  (d_delivered (drun dispatcher_clears_before_drain d0 tr) + d_queue (drun dispatcher_clears_before_drain d0 tr)
+   = length (filter (fun a => match a with SPut => true | _ => false end) tr))%nat.
+Proof. exact (blocks_conserved dispatcher_clears_before_drain). Qed.
+Print Assumptions C06_dispatcher_conserves_blocks.
+(* ... whereas clearing after the drain loop strands a block that arrives between the last look at the queue and the clear *)
+Theorem C06_clear_after_drain_strands :
+  stuck (drun false d0 [SPut; SSet; SDispatcher; SDispatcher; SDispatcher; SPut; SSet; SDispatcher]) = true.
+Proof. exact clear_after_drain_strands. Qed.
+Print Assumptions C06_clear_after_drain_strands.
